@@ -227,6 +227,13 @@ class WsConn:
 class World:
     impl = '?'
 
+    def _exc(self, msg):
+        """The exception a scripted handler failure raises: any class the application might
+        let escape (cfg 'exc_type'), TypeError included - the servers use TypeError themselves
+        to detect legacy one-argument disconnect handlers."""
+        return {'runtime': RuntimeError, 'type': TypeError, 'key': KeyError,
+                'os': OSError, 'value': ValueError}[self.cfg.get('exc_type') or 'runtime'](msg)
+
     def __init__(self, cfg):
         self.cfg = dict(ping_interval=2, ping_timeout=1, grace=0, async_handlers=False,
                         monitor=False, transports=None, allow_upgrades=True, ws_available=True,
@@ -456,7 +463,7 @@ class SyncWorld(World):
                 return False
             if outcome == 'raise':
                 w.orphans.add(slot)
-                raise RuntimeError('connect handler failure (scripted)')
+                raise w._exc('connect handler failure (scripted)')
             if outcome not in ('accept',):
                 w.orphans.add(slot)
                 return json.loads(outcome)
@@ -469,7 +476,7 @@ class SyncWorld(World):
             if tok.startswith('mE'):
                 w._app_send(slot)
             if tok.startswith('mX'):
-                raise RuntimeError('message handler failure (scripted)')
+                raise w._exc('message handler failure (scripted)')
 
         def disconnect(sid, reason):
             slot = w._slot_of(sid)
@@ -477,7 +484,7 @@ class SyncWorld(World):
             if w.cfg['disc_raises'] == 'cancel':
                 raise GeneratorExit('disconnect handler failure (scripted, not an Exception)')
             if w.cfg['disc_raises']:
-                raise RuntimeError('disconnect handler failure (scripted)')
+                raise w._exc('disconnect handler failure (scripted)')
 
         srv.on('connect', connect)
         srv.on('message', message)
@@ -855,7 +862,7 @@ class AsyncWorld(World):
                 return False
             if outcome == 'raise':
                 w.orphans.add(slot)
-                raise RuntimeError('connect handler failure (scripted)')
+                raise w._exc('connect handler failure (scripted)')
             if outcome not in ('accept',):
                 w.orphans.add(slot)
                 return json.loads(outcome)
@@ -868,7 +875,7 @@ class AsyncWorld(World):
             if tok.startswith('mE'):
                 await w._app_send(slot)
             if tok.startswith('mX'):
-                raise RuntimeError('message handler failure (scripted)')
+                raise w._exc('message handler failure (scripted)')
 
         async def disconnect(sid, reason):
             slot = w._slot_of(sid)
@@ -877,7 +884,7 @@ class AsyncWorld(World):
                 # e.g. the handler awaited a task it had cancelled
                 raise asyncio.CancelledError()
             if w.cfg['disc_raises']:
-                raise RuntimeError('disconnect handler failure (scripted)')
+                raise w._exc('disconnect handler failure (scripted)')
 
         srv.on('connect', connect)
         srv.on('message', message)
